@@ -4,6 +4,7 @@
   (so addresses, 64-bit integers, … at once).
 -/
 import SplModel.PodOption
+import SplProofs.Lemmas.Le
 
 namespace C14
 open PodOption
@@ -48,6 +49,54 @@ theorem C14_encoding (v : T) :
   refine ⟨rfl, by simp [PodOption.get, PodOption.default], ?_⟩
   unfold serdeSer PodOption.get
   by_cases h : v = N.noneVal <;> simp [h]
+
+/-- Address instance at byte level: a stored 32-byte value reads as none exactly when every one of
+    its bytes is zero — the none test looks at the whole value, not a prefix. -/
+theorem C14_address_bytes (b : Bytes) (hb : b.length = 32) :
+    get addrN b = none ↔ ∀ i, i < 32 → b[i]? = some 0 := by
+  rw [(C14_get addrN b).1]
+  constructor
+  · intro h i hi
+    subst h
+    exact Bytes.zeros_get? 32 i hi
+  · intro h
+    apply List.ext_getElem?
+    intro i
+    show b[i]? = (Bytes.zeros 32)[i]?
+    by_cases hi : i < 32
+    · rw [h i hi, Bytes.zeros_get? 32 i hi]
+    · rw [List.getElem?_eq_none (by omega), List.getElem?_eq_none (by simp [Bytes.zeros]; omega)]
+
+/-- Every address that differs from the none marker in a single byte (so in particular in a single
+    bit), at any of the 32 positions, reads as some of itself and is accepted by every conversion. -/
+theorem C14_address_single_byte (i : Nat) (hi : i < 32) (x : UInt8) (hx : x ≠ 0) :
+    get addrN ((Bytes.zeros 32).set i x) = some ((Bytes.zeros 32).set i x) ∧
+    tryFrom addrN (some ((Bytes.zeros 32).set i x)) = .ok ((Bytes.zeros 32).set i x) := by
+  have hlen : (Bytes.zeros 32).length = 32 := by unfold Bytes.zeros; exact List.length_replicate ..
+  have hne : (Bytes.zeros 32).set i x ≠ addrN.noneVal := by
+    intro h
+    have h1 : ((Bytes.zeros 32).set i x)[i]? = (Bytes.zeros 32)[i]? := by rw [h]; rfl
+    rw [Bytes.zeros_get? 32 i hi, List.getElem?_set_self (by rw [hlen]; exact hi)] at h1
+    exact hx (Option.some.inj h1)
+  exact ⟨(C14_get addrN _).2 hne, by simp [tryFrom, hne]⟩
+
+/-- 64-bit instance at byte level: the value reads as none exactly when its eight little-endian
+    bytes are all zero. -/
+theorem C14_u64_bytes (n : Nat) (hn : n < 2 ^ 64) :
+    get u64N n = none ↔ Bytes.toLe 8 n = Bytes.zeros 8 := by
+  rw [(C14_get u64N n).1]
+  constructor
+  · intro h; subst h; decide
+  · intro h
+    have h1 := Bytes.fromLe_toLe 8 n (by simpa using hn)
+    rw [h] at h1
+    show n = 0
+    rw [← h1]; decide
+
+/-! Non-vacuity of the byte-level statements. -/
+example : get addrN ((Bytes.zeros 32).set 31 0x80) ≠ none := by decide
+example : get addrN (Bytes.zeros 32) = none := by decide
+example : get u64N (2 ^ 63) = some (2 ^ 63) ∧ Bytes.toLe 8 (2 ^ 63) ≠ Bytes.zeros 8 := by decide
 
 /-! Non-vacuity: a 2-byte "address" with none value [0,0]. -/
 example : tryFrom (⟨[0, 0]⟩ : Nullable (List Nat)) (some [0, 1]) = .ok [0, 1] := by decide
